@@ -385,6 +385,26 @@ def comparable(obs):
     return {"runs": obs["runs"]}
 
 
+def documented(s):
+    import re
+    return not s.startswith("gdc-") or re.fullmatch(r"gdc-[0-9]+\.[0-9]+\.[0-9]+(-.*)?", s) is not None
+
+
+def skip_compare(case):
+    """load_all_schemes sorts by keys parsed from version/annotation; strings that start with
+    gdc- but leave the documented patterns give keys of another shape (what list.sort then
+    compares, and whether int() accepts the pieces, is outside the model - see ASSUMPTIONS)"""
+    if not any(m == "load_all" for m, _ in case["runs"]):
+        return False
+    for sp in case["files"].values():
+        if sp["kind"] == "json":
+            for k in ("version", "annotation-spec"):
+                v = sp["data"].get(k)
+                if isinstance(v, str) and not documented(v):
+                    return True
+    return False
+
+
 # ------------------------------------------------------------ the property, recomputed
 def _defs_of(case, mode, order):
     """parsed definitions of a run in load order, or ('load-error', kind)"""
@@ -707,8 +727,11 @@ def _defect(rng, defs):
             # the root of j's chain now extends j
             cur = j
             by = {x["annotation-spec"]: k for k, x in enumerate(defs)}
-            while defs[cur]["extends"] not in ("None", None, ""):
-                cur = by[defs[cur]["extends"]]
+            for _ in range(len(defs)):
+                nxt = by.get(defs[cur]["extends"])
+                if defs[cur]["extends"] in ("None", None, "") or nxt is None:
+                    break
+                cur = nxt
             defs[cur]["extends"] = defs[j]["annotation-spec"]
         else:
             d["extends"] = d["annotation-spec"]
@@ -725,7 +748,7 @@ def _defect(rng, defs):
     elif kind in ("dup-annotation", "dup-pair", "dup-annotation-of-base"):
         if kind == "dup-annotation-of-base" and _derived_idx(defs):
             by = {x["annotation-spec"]: k for k, x in enumerate(defs)}
-            d = defs[by[defs[rng.choice(_derived_idx(defs))]["extends"]]]
+            d = defs[by.get(defs[rng.choice(_derived_idx(defs))]["extends"], i)]
         c = json.loads(json.dumps(d))
         if kind == "dup-annotation":
             c["version"] = d["version"] + "-other"
@@ -848,10 +871,13 @@ def _gen_adversarial(rng):
     # two defects at once
     kind, files = _defect(rng, gen_forest(rng, 3))
     defs = [s["data"] for s in files.values() if s["kind"] == "json"]
-    if defs:
-        kind2, files2 = _defect(rng, defs)
-        files = files2
-        kind += "+" + kind2
+    if defs and all(k in d for d in defs for k in ("version", "annotation-spec", "extends", "columns", "filtered")):
+        try:
+            kind2, files2 = _defect(rng, defs)
+            files = files2
+            kind += "+" + kind2
+        except (IndexError, KeyError):
+            pass          # the second defect does not apply to what the first one left
     return _case("adversarial", files, _perm_runs(rng, files), kind)
 
 
